@@ -31,6 +31,8 @@ func propC07() *Property {
 			{ID: "C07.R6", Title: "every history entry is a page of its own", Floor: 1, Run: c07R6},
 			{ID: "C07.R7", Title: "a background load is delivered to the page it was started for (in-flight flag pairing; same instances as C08.R9)", Floor: 8, Run: c08R9},
 			{ID: "C07.R9", Title: "when the media hook ends it touches the input mode only if the UI is still showing `opening`", Floor: 2, Run: c07R9},
+			{ID: "C07.R11", Title: "`c` and `r` open the authors and recipients in document order: every fan-out goroutine fills the slot of its own iteration (same instances as C08.R5)", Floor: 40, Run: c08R5},
+			{ID: "C07.R10", Title: "loading more of a page continues where the last load stopped: collection and offset are kept together (same instances as C10.R7)", Floor: 2, Run: c10R7},
 			{ID: "C07.R8", Title: "a number typed by the user can only select a link that was shown with it: a link list that comes with an error is empty (same instances as C12.R7)", Floor: 3, Run: c12R7},
 		},
 	}
